@@ -20,7 +20,7 @@ RULE = (
 
 def run(rec, hub, tier, seed, shard, nshards, budget):
     rec.require(dsm.M10, 50)
-    n = 150 if tier == "quick" else 900
+    n = 300 if tier == "quick" else 2500
     for k in range(n):
         if not budget.ok():
             break
